@@ -492,7 +492,8 @@ var (
 	sibAccessor = []siblingPair{}
 	sibSetters  = []siblingPair{
 		{A: "database.(*Interface).MakeSecret", B: "database.(*Interface).MakeCrownJewel", Rename: map[string]string{"Meta.MakeSecret": "Meta.MakeCrownJewel"}, Why: "flag setters"},
-		{A: "database.(*Interface).SetAbsoluteExpiry", B: "database.(*Interface).SetRelativateExpiry", Rename: map[string]string{"Meta.SetAbsoluteExpiry": "Meta.SetRelativateExpiry"}, Why: "expiry setters"},
+		{A: "database.(*Interface).SetAbsoluteExpiry", B: "database.(*Interface).SetRelativateExpiry", Rename: map[string]string{"Meta.SetAbsoluteExpiry": "Meta.SetRelativateExpiry"}, Why: "expiry setters; the relative one updates the metadata afterwards, which is what turns the TTL into the expiry time (fix ac0d0d8, C02-R28)",
+			Allow: []string{"call database/record.Meta.Update(", "call database/record.Record.Meta("}},
 		{A: "database.(*Interface).MakeSecret", B: "database.(*Interface).SetAbsoluteExpiry", Rename: map[string]string{"Meta.MakeSecret": "Meta.SetAbsoluteExpiry"}, Why: "attribute setters"},
 	}
 	sibDSD   = []siblingPair{{A: "formats/dsd.LoadFromHTTPRequest", B: "formats/dsd.LoadFromHTTPResponse", Rename: map[string]string{"http.Request": "http.Response"}, Why: "request / response"}}
